@@ -4,6 +4,7 @@ package sym
 import (
 	"fmt"
 	"go/types"
+	"sync"
 
 	. "verif/engine/internal/smt"
 )
@@ -142,28 +143,51 @@ type CTab struct { // read-only constant table
 	W    int
 	arr  *Term
 }
+type elemMemo struct {
+	mu sync.Mutex
+	m  map[uint64]*Term
+}
+
+func (e *elemMemo) get(i *Term) (*Term, bool) {
+	e.mu.Lock()
+	defer e.mu.Unlock()
+	t, ok := e.m[i.ID()]
+	return t, ok
+}
+func (e *elemMemo) put(i, t *Term) {
+	e.mu.Lock()
+	if e.m == nil {
+		e.m = map[uint64]*Term{}
+	}
+	e.m[i.ID()] = t
+	e.mu.Unlock()
+}
+
 type CStore struct {
 	B    Content
 	I, V *Term
+	memo elemMemo
 }
 type CCopy struct {
 	B       Content
 	DOff    *Term
 	Src     Content
 	SOff, N *Term
+	memo    elemMemo
 }
 type CIte struct {
 	C    *Term
 	A, B Content
+	memo elemMemo
 }
 
-func (c CSym) Width() int   { return c.A.S.W }
-func (c CZero) Width() int  { return c.W }
-func (c CVec) Width() int   { return c.W }
-func (c *CTab) Width() int  { return c.W }
-func (c CStore) Width() int { return c.B.Width() }
-func (c CCopy) Width() int  { return c.B.Width() }
-func (c CIte) Width() int   { return c.A.Width() }
+func (c CSym) Width() int    { return c.A.S.W }
+func (c CZero) Width() int   { return c.W }
+func (c CVec) Width() int    { return c.W }
+func (c *CTab) Width() int   { return c.W }
+func (c *CStore) Width() int { return c.B.Width() }
+func (c *CCopy) Width() int  { return c.B.Width() }
+func (c *CIte) Width() int   { return c.A.Width() }
 
 func (c CSym) Elem(i *Term) *Term  { return Select(c.A, i) }
 func (c CZero) Elem(i *Term) *Term { return BVC(c.W, 0) }
@@ -197,28 +221,50 @@ func (c *CTab) Elem(i *Term) *Term {
 	}
 	return Select(c.arr, i)
 }
-func (c CStore) Elem(i *Term) *Term {
+func (c *CStore) Elem(i *Term) *Term {
 	e := Eq(i, c.I)
 	if e.IsTrue() {
 		return c.V
 	}
+	if t, ok := c.memo.get(i); ok {
+		return t
+	}
+	var r *Term
 	if e.IsFalse() {
-		return c.B.Elem(i)
+		r = c.B.Elem(i)
+	} else {
+		r = Ite(e, c.V, c.B.Elem(i))
 	}
-	return Ite(e, c.V, c.B.Elem(i))
+	c.memo.put(i, r)
+	return r
 }
-func (c CCopy) Elem(i *Term) *Term {
+func (c *CCopy) Elem(i *Term) *Term {
+	if t, ok := c.memo.get(i); ok {
+		return t
+	}
 	in := And(ULe(c.DOff, i), ULt(Sub(i, c.DOff), c.N))
+	var r *Term
 	if in.IsFalse() {
-		return c.B.Elem(i)
+		r = c.B.Elem(i)
+	} else {
+		s := c.Src.Elem(Add(Sub(i, c.DOff), c.SOff))
+		if in.IsTrue() {
+			r = s
+		} else {
+			r = Ite(in, s, c.B.Elem(i))
+		}
 	}
-	s := c.Src.Elem(Add(Sub(i, c.DOff), c.SOff))
-	if in.IsTrue() {
-		return s
-	}
-	return Ite(in, s, c.B.Elem(i))
+	c.memo.put(i, r)
+	return r
 }
-func (c CIte) Elem(i *Term) *Term { return Ite(c.C, c.A.Elem(i), c.B.Elem(i)) }
+func (c *CIte) Elem(i *Term) *Term {
+	if t, ok := c.memo.get(i); ok {
+		return t
+	}
+	r := Ite(c.C, c.A.Elem(i), c.B.Elem(i))
+	c.memo.put(i, r)
+	return r
+}
 
 const vecMax = 80
 
@@ -238,7 +284,7 @@ func StoreC(c Content, i, v *Term) Content {
 		}
 		return CVec{E: ne, W: cv.W}
 	}
-	return CStore{B: c, I: i, V: v}
+	return &CStore{B: c, I: i, V: v}
 }
 
 // CopyC returns dst with dst[dOff .. dOff+n) := src[sOff .. sOff+n).
@@ -266,7 +312,7 @@ func CopyC(dst Content, dOff *Term, src Content, sOff, n *Term) Content {
 		}
 		return c
 	}
-	return CCopy{B: dst, DOff: dOff, Src: src, SOff: sOff, N: n}
+	return &CCopy{B: dst, DOff: dOff, Src: src, SOff: sOff, N: n}
 }
 
 func IteC(c *Term, a, b Content) Content {
@@ -285,7 +331,7 @@ func IteC(c *Term, a, b Content) Content {
 		}
 		return CVec{E: ne, W: av.W}
 	}
-	return CIte{C: c, A: a, B: b}
+	return &CIte{C: c, A: a, B: b}
 }
 
 // ---------------- type helpers ----------------
